@@ -28,6 +28,16 @@ def envsOfJ (ej fj : J) : Option Envs :=
   | some e, some f => some { eval := e, fmt := f }
   | _, _ => none
 
+def opOfJ (j : J) : Option (Index.Op PVal Str) :=
+  match j with
+  | .arr [.str "update", t] => t.getStr.map Index.Op.update
+  | .arr [.str "from_python"] => some (.updateFromPython none)
+  | .arr [.str "push"] => some .push
+  | .arr [.str "pop"] => some .pop
+  | .arr [.str "set", .num i] => some (.setState i.toNat)
+  | .arr [.str "get"] => some .getPython
+  | _ => none
+
 def handle (req : J) : J :=
   match req with
   | .arr (.str "tokv" :: t :: _) =>
@@ -132,6 +142,30 @@ def handle (req : J) : J :=
        (match parse mt with
         | .error e => .arr [.str "parse-failed", e.toJ]
         | .ok root => resJ Obj.toJ (formatObj envs 1000 root v))
+     | _, _, _ => .str "bad-request")
+  | .arr [.str "index", mt, opsj, ej, fj] =>
+    (match mt.getStr, opsj.getArr, envsOfJ ej fj with
+     | some mt, some opsj, some envs =>
+       (match parseObjs mt with
+        | .error e => .arr [.str "parse-failed", e.toJ]
+        | .ok m =>
+          (match fetchRoot envs false m [] with
+           | .error e => e.toJ
+           | .ok (w0, _) =>
+             let ctx : IndexCtx := { envs := envs, master := m, multiple := multiplePaths 1000 [] w0.children }
+             let k := concreteKernel ctx
+             let s0 := Index.init k w0.children
+             let obs (s : Index.State (List Obj) PVal) (g : Option PVal) : J :=
+               .arr [(match showObj {} (rootOf s.working) [] [] with | .ok ls => J.text (unlines ls) | .error e => e.toJ),
+                     .bool s.params.isSome, .bool s.dirty, .num s.states.length,
+                     (match g with | some v => .arr [.str "got", v.toJ] | none => .null)]
+             let (_, outs) := opsj.foldl (fun (acc : Index.State (List Obj) PVal × List J) oj =>
+               match opOfJ oj with
+               | none => (acc.1, acc.2 ++ [.str "bad-op"])
+               | some op =>
+                 let (s', g) := Index.step k acc.1 op
+                 (s', acc.2 ++ [obs s' g])) (s0, [obs s0 none])
+             okJ (.arr outs)))
      | _, _, _ => .str "bad-request")
   | _ => .str "bad-op"
 
